@@ -250,6 +250,9 @@ def gen_call(rnd):
             core = arg_text(rnd)
             a = rnd.choice(["", "", " ", "  ", "\\\n", " \\\n  "]) + core + rnd.choice(["", "", " ", "\\\n", " \\\n\\\n "])
             args.append(a)
+        if rnd.random() < 0.06:
+            # an argument that is nothing but a backslash continuation is text, not white space: passed as it is
+            args.insert(rnd.randint(0, len(args)), rnd.choice(["\\\n", "\\\n\\\n", " \\\n"]))
         if len(args) >= 2 and rnd.random() < 0.05:
             # an interior argument that is white space only: passed as it is or refused like the empty one, never dropped (the later ones would shift)
             args.insert(rnd.randint(1, len(args) - 1), rnd.choice([" ", "  ", "\t"]))
@@ -284,7 +287,9 @@ BLOCK_LINES = ["ls -l", "x = 42", "echo $PATH", 'export PATH="yo:momma"', "pass"
                # multi-line strings whose inner lines hold characters that str.splitlines() treats as line ends, and f-strings whose literal part ends a line
                "s = '''a\x0cb\n  c\n  d'''", "t = '''u\u2028v\nw'''", "r = '''x\x1cy\x85z\n'''", "a = f'''\n    foo\n'''", "b = f'''{k}\n  m\n''' + '''\n'''", "c = g(f'''\n{k}\n\n''')",
                # physical lines on which no token starts
-               "d = 1 + \\\n\\\n2", "e = '''x\ny''' \\\n+ 1", "f = (1,\n\\\n2)"]
+               "d = 1 + \\\n\\\n2", "e = '''x\ny''' \\\n+ 1", "f = (1,\n\\\n2)",
+               # a line that holds only a backslash continuation (also as the first line of the block)
+               "\\\ng = 5", "\\\n\\\nh = 6", "\\\n  i = 7"]
 
 
 def _lf_lines(text):
@@ -298,7 +303,13 @@ def gen_with(rnd):
     if rnd.random() < 0.2:
         rest = rnd.choice(["pass", "x = 42; y = 12", 'export PATH="yo:momma"; echo $PATH', "[1,\n    2,\n    3]", "ls -l | grep x", "f!(a, b)", "  spaced   out  ",
                            'a = """q\nw""" + 1', 'a = """q\nw"""', "print(f'''a\n{b}\n''', 2)", "s = '''x\n  y\n z''' ; t = 3", "g(a,\n  '''m\nn''',\n  b)", "x = 'a\\\nb' + c",
-                           'v = f"""{k}\n""" f"{j}"', "call((1,\n 2), '''t\nu'''\n)"])
+                           'v = f"""{k}\n""" f"{j}"', "call((1,\n 2), '''t\nu'''\n)", "\\\n   a", "\\\n\\\n b = 1", "x = 1 \\\n  + 2"])
+        if rnd.random() < 0.2:
+            # nothing but a backslash continuation between the colon and the end of the header line
+            rest = rnd.choice(["\\\n   a", "\\\nb = 2", "\\\n\t\\\n c"])
+            stmt = f"with! {ctx}:" + rest + "\n"
+            follow = rnd.choice(FOLLOW + [""])
+            return {"kind": "with-oneline", "src": stmt + follow, "expected": [rest + "\n"], "follow": follow, "lines_before_follow": stmt.count("\n")}
         head = f"with! {ctx}:"
         stmt = head + " " + rest + "\n"
         follow = rnd.choice(FOLLOW + [""])
@@ -309,6 +320,9 @@ def gen_with(rnd):
     nlines = rnd.randint(1, 7)
     for i in range(nlines):
         l = rnd.choice(BLOCK_LINES)
+        while unit == "\t" and l.startswith("\\"):
+            # (a line holding only a tab and a backslash continuation is a TabError for CPython's own tokenizer as well)
+            l = rnd.choice(BLOCK_LINES)
         if i == nlines - 1 and (l == "" or l.startswith("#") or l.endswith(":")):
             l = "done = 1"
         text = "\n".join((unit * level + part) if part else part for part in l.split("\n")) if "'''" not in l else unit * level + l
@@ -325,6 +339,9 @@ def gen_with(rnd):
     tail_comment = rnd.choice(["# after the block\n", "# a\n\n# b\n", "#\n"]) if rnd.random() < 0.12 else ""
     follow = rnd.choice(FOLLOW)
     outer = rnd.random() < 0.25
+    if not outer and unit in ("\t", "        ") and rnd.random() < 0.25:
+        # a comment left of the block by *column* (a tab counts up to the next multiple of eight), though not by character count
+        tail_comment = rnd.choice(["    # left of the block\n", "  # l\n\n    # m\n", "   # n\n"])
     # blanks or a comment after the colon do not change the form of the statement
     head = f"with! {ctx}:" + rnd.choice(["", "", "", "", " ", "  ", "\t", "  # c", " #c"]) + "\n"
     if outer:
